@@ -31,6 +31,7 @@ const (
 type phasePlan struct {
 	Un, Au string // answers to the unauthenticated / authenticated request
 	Cut    int    // for Au == cut: index into the cut menu
+	Retry  string // what a repeated request for the resource gets (only asked for when the phase fails)
 }
 
 type hostPlan struct {
@@ -48,12 +49,16 @@ type atlasRun struct {
 	OutFaultAt  int
 	Window      bool
 	KeySupply   int // 0 flags; 1 environment; 2 public by flag, private by env; 3 the other way round
+	TmpForm     int // spelling of TMPDIR: 0 clean; 1 trailing slash; 2 "/./" inside; 3 "//" inside; 4 through a symbolic link
+	KillAt      int // CLI level: the process is killed when this request arrives (crash histories); 0 = never
 	Fl          Flags
 	Desc        []string
 }
 
 var unauthMenu = []string{AnsDigest, AnsOK, AnsBasic, Ans401, Ans404, Ans500Echo, AnsNetErr, AnsBadDig, Ans403}
 var authMenu = []string{AnsOK, Ans401, Ans403, Ans404, Ans500Echo, AnsNetErr, AnsCut}
+var retryMenu = []string{RetrySame, RetryFlow, Ans500Echo, AnsNetErr, Ans404, AnsBasic}
+var tmpForms = []string{"clean", "trailing-slash", "dot-segment", "double-slash", "symlink"}
 var cutMenuN = 4 // 0, 1, len/2, len-1
 
 var payloadKinds = []string{"valid", "gzip-of-nothing", "multi-member", "large", "zero-bytes", "not-gzip", "over-long-line", "blank-and-garbage-lines", "compressed-bytes-without-0x0A"}
@@ -144,6 +149,7 @@ type atlasGenOpts struct {
 	PayloadFree     bool // payload kinds as a full product instead of deviations
 	MinHosts        int  // smallest number of hosts (default 1)
 	AlwaysChallenge bool // with SuccessOnly: every request is challenged (no choice)
+	TmpForm         int  // spelling of TMPDIR for all runs of this exploration (index into tmpForms)
 }
 
 // genAtlasRun is the explorer body: choice points are created lazily, only for requests the model
@@ -167,6 +173,7 @@ func genAtlasRun(x *X, o atlasGenOpts) *atlasRun {
 		r.KeySupply = x.Free(4, "key supply")
 	}
 	r.Window = x.Free(2, "window flags") == 1
+	r.TmpForm = o.TmpForm
 	phase := func(label string) (phasePlan, bool) {
 		var p phasePlan
 		um, am := unauthMenu, authMenu
@@ -177,11 +184,27 @@ func genAtlasRun(x *X, o atlasGenOpts) *atlasRun {
 			}
 		}
 		p.Un = um[x.Free(len(um), label+": answer to the unauthenticated request")]
+		// a 401 may offer several challenges; the second one is a deviation of its own
+		if !o.SuccessOnly {
+			switch p.Un {
+			case AnsDigest:
+				if x.Costly(2, label+": a Basic challenge offered after the Digest one") == 1 {
+					p.Un = AnsDigestBasic
+				}
+			case AnsBasic:
+				if x.Costly(2, label+": a Digest challenge offered after the Basic one") == 1 {
+					p.Un = AnsBasicDigest
+				}
+			}
+		}
 		switch p.Un {
 		case AnsOK:
 			return p, true
-		case AnsDigest:
+		case AnsDigest, AnsDigestBasic:
 			p.Au = am[x.Free(len(am), label+": answer to the authenticated request")]
+			if p.Au == Ans401 && !o.SuccessOnly {
+				p.Au = []string{Ans401, Ans401Offer, Ans401Basic}[x.Costly(3, label+": challenges offered with the 401 that refuses the digest response")]
+			}
 			if p.Au == AnsCut {
 				p.Cut = x.Free(cutMenuN, label+": body cut position")
 			}
@@ -227,6 +250,32 @@ func genAtlasRun(x *X, o atlasGenOpts) *atlasRun {
 	return r
 }
 
+// repeatedRequest: did the client ask for a resource again (same resource, same authentication class)?  A
+// conforming client never does; one that tries again after a failure does, and what it gets THEN is a choice
+// point of its own — created only when the first execution shows that the question arises.
+func repeatedRequest(reqs []AtlasReq) bool {
+	seen := map[string]bool{}
+	for _, q := range reqs {
+		k := q.Kind + "|" + q.LogHost + "|" + fmt.Sprint(q.Auth != "")
+		if seen[k] {
+			return true
+		}
+		seen[k] = true
+	}
+	return false
+}
+
+// withRetry: a copy of the run in which every repeated request gets the answer a.
+func (r *atlasRun) withRetry(a string) *atlasRun {
+	c := *r
+	c.Hosts = append([]hostPlan(nil), r.Hosts...)
+	c.Cluster.Retry = a
+	for i := range c.Hosts {
+		c.Hosts[i].Retry = a
+	}
+	return &c
+}
+
 func (r *atlasRun) hostNames() []string {
 	var hs []string
 	for _, h := range r.Hosts {
@@ -236,7 +285,7 @@ func (r *atlasRun) hostNames() []string {
 }
 
 func (r *atlasRun) script() *AtlasScript {
-	s := &AtlasScript{Public: atlasPub, Private: atlasPriv, ClusterUnauth: r.Cluster.Un, ClusterAuth: r.Cluster.Au, Hosts: map[string]*HostScript{}}
+	s := &AtlasScript{Public: atlasPub, Private: atlasPriv, ClusterUnauth: r.Cluster.Un, ClusterAuth: r.Cluster.Au, ClusterRetry: r.Cluster.Retry, KillAtRequest: r.KillAt, Hosts: map[string]*HostScript{}}
 	var ports []bool
 	for _, h := range r.Hosts {
 		ports = append(ports, h.Port)
@@ -256,7 +305,7 @@ func (r *atlasRun) script() *AtlasScript {
 	s.ClusterCut = cutAt(r.Cluster.Cut, len(s.ClusterBody))
 	for _, h := range r.Hosts {
 		p := payloadBytes(h.Payload, h.Name)
-		s.Hosts[h.Name] = &HostScript{Unauth: h.Un, Auth: h.Au, Payload: p, Cut: cutAt(h.Cut, len(p))}
+		s.Hosts[h.Name] = &HostScript{Unauth: h.Un, Auth: h.Au, Payload: p, Cut: cutAt(h.Cut, len(p)), Retry: h.Retry}
 	}
 	return s
 }
@@ -273,7 +322,7 @@ func (r *atlasRun) model() (reqs []expReq, downloaded int, success bool, failWhe
 		switch p.Un {
 		case AnsOK:
 			return true
-		case AnsDigest:
+		case AnsDigest, AnsDigestBasic:
 			reqs = append(reqs, expReq{kind, host, true})
 			return p.Au == AnsOK
 		}
@@ -311,9 +360,24 @@ func (r *atlasRun) model() (reqs []expReq, downloaded int, success bool, failWhe
 func (r *atlasRun) String() string {
 	var hs []string
 	for i, h := range r.Hosts {
-		hs = append(hs, fmt.Sprintf("host%d[%s/%s cut%d payload=%s]", i, h.Un, h.Au, h.Cut, payloadKinds[h.Payload]))
+		rt := ""
+		if h.Retry != "" {
+			rt = " again→" + h.Retry
+		}
+		hs = append(hs, fmt.Sprintf("host%d[%s/%s cut%d payload=%s%s]", i, h.Un, h.Au, h.Cut, payloadKinds[h.Payload], rt))
 	}
-	return fmt.Sprintf("cluster[%s/%s cut%d body%d] %s outFault=%d@%d window=%v keys=%d flags[%s]", r.Cluster.Un, r.Cluster.Au, r.Cluster.Cut, r.ClusterBody, strings.Join(hs, " "), r.OutFault, r.OutFaultAt, r.Window, r.KeySupply, r.Fl)
+	crt := ""
+	if r.Cluster.Retry != "" {
+		crt = " again→" + r.Cluster.Retry
+	}
+	extra := ""
+	if r.TmpForm != 0 {
+		extra += " TMPDIR=" + tmpForms[r.TmpForm]
+	}
+	if r.KillAt != 0 {
+		extra += fmt.Sprintf(" killed-at-request-%d", r.KillAt)
+	}
+	return fmt.Sprintf("cluster[%s/%s cut%d body%d%s] %s outFault=%d@%d window=%v keys=%d flags[%s]%s", r.Cluster.Un, r.Cluster.Au, r.Cluster.Cut, r.ClusterBody, crt, strings.Join(hs, " "), r.OutFault, r.OutFaultAt, r.Window, r.KeySupply, r.Fl, extra)
 }
 
 // ---- observations
@@ -349,6 +413,27 @@ func listFiles(dir string) map[string][]byte {
 	return out
 }
 
+// tmpSpelling: the value TMPDIR gets for a directory, in one of the spellings a user's environment may hold
+// (all name the same directory).
+func tmpSpelling(tmp string, form int) string {
+	dir, base := filepath.Dir(tmp), filepath.Base(tmp)
+	switch tmpForms[form] {
+	case "trailing-slash":
+		return tmp + "/"
+	case "dot-segment":
+		return dir + "/./" + base
+	case "double-slash":
+		return dir + "//" + base
+	case "symlink":
+		l := filepath.Join(dir, "tmplink")
+		os.Remove(l)
+		if os.Symlink(tmp, l) == nil {
+			return l
+		}
+	}
+	return tmp
+}
+
 // execAtlasLib drives DownloadClusterLogs / ProcessMongoLogFile / DeleteClusterLogs the way main() does,
 // in-process, with the scripted endpoint as http.DefaultTransport.
 func execAtlasLib(r *atlasRun, dir string) *atlasObs {
@@ -363,7 +448,7 @@ func execAtlasLib(r *atlasRun, dir string) *atlasObs {
 		os.MkdirAll(filepath.Join(outDir, fmt.Sprintf("out.log.%d", r.OutFaultAt)), 0o755)
 	}
 	oldTmp := os.Getenv("TMPDIR")
-	os.Setenv("TMPDIR", tmp)
+	os.Setenv("TMPDIR", tmpSpelling(tmp, r.TmpForm))
 	defer os.Setenv("TMPDIR", oldTmp)
 	fake := &fakeAtlas{script: r.script()}
 	oldT := http.DefaultTransport
@@ -464,7 +549,7 @@ func execAtlasCLI(c *Ctx, r *atlasRun, dir string) (*atlasObs, error) {
 	}
 	args = append(args, r.Fl.CLIArgs(filepath.Join(dir, "enc.key"))...)
 	o.T0 = time.Now().Unix()
-	res, err := runCLI(CLIRun{Bin: c.Self, Args: args, Dir: dir, TmpDir: tmp, Env: env})
+	res, err := runCLI(CLIRun{Bin: c.Self, Args: args, Dir: dir, TmpDir: tmpSpelling(tmp, r.TmpForm), Env: env})
 	o.T1 = time.Now().Unix()
 	if err != nil {
 		return nil, err
